@@ -119,13 +119,6 @@ var (
 )
 
 func run(t failer, c Case, labels ...string) {
-	// the one shape that ends the process (log.Fatalf in the printer) cannot be evaluated in-process:
-	// it is steered away from here and kept as an isolated regress file
-	if f, fset, err := fmtin.Parse(c.Src, c.Class); err == nil && fmtin.OneLineForPhrase(f, fset) {
-		vk.R.Excluded("crash")
-		vk.R.Case(false, "")
-		return
-	}
 	v, in := check(c)
 	if in.rejected != "" {
 		vk.R.Rejected(in.rejected)
